@@ -571,6 +571,15 @@ def generate(rng, tier):
                 data = m + b" " + t + b" HTTP/1.1\r\n" + b"".join(h + b"\r\n" for h in hs) + hn + b": " + v + b"\r\n\r\n"
                 # twice on one connection: the second request meets the cache entry / the limiter's count of the first
                 cases.append(conn_case(data + data, "conn-header-value"))
+    # drain(): no handler reads the body; the head arrives alone, then the body in pieces, then more than the body (the next request / garbage)
+    for t in (b"/f.txt", b"/index.html", b"/nothing", b"/h", b"/stream/s10.bin", b"/t2.html"):
+        for cl in (1, 3, 4096, 5000, 70000):
+            for extra in (b"", b"GET / HTTP/1.1\r\nHost: localhost\r\n\r\n", b"\x00" * 9000):
+                if quick and (cl + len(extra) + len(t)) % 3:
+                    continue
+                head = b"POST " + t + b" HTTP/1.1\r\nHost: " + rng.choice([b"localhost", b"lim.example"]) + b"\r\nContent-Length: %d\r\n\r\n" % cl
+                body = b"b" * min(cl, rng.choice([cl, cl, cl // 2, 0]))
+                cases.append(conn_case(head + body + extra, "conn-drain", sched=[len(head), max(1, len(body) // 2), len(body) + len(extra)]))
     # the 429 answer and the drop under malformed input: several requests to the rate-limited host on one connection
     for _ in range(25 if quick else 600):
         data = b""
